@@ -119,14 +119,14 @@ theorem kmOf_eq {i : Input} {al : AList} (w : ALwf i al) :
 theorem clsOf_mem {i : Input} {al : AList} (w : ALwf i al) {cls : String × List MarkRec} (hc : cls ∈ clsOf i al)
     {r : MarkRec} (hr : r ∈ cls.2) :
     ∃ a, AnchorIn al r.glyph a ∧ a.isMark = true ∧ markOK i r.glyph = true ∧ cls.1 = "MC" ++ a.name ∧
-      r.x = otRound a.x ∧ r.y = otRound a.y := by
+      r.x = otRound a.x ∧ r.y = otRound a.y ∧ NAShape a := by
   rw [clsOf_eq w] at hc
   obtain ⟨n, _, rfl⟩ := mem_map.mp hc
   obtain ⟨gm, hgm, rfl⟩ := mem_map.mp hr
   obtain ⟨e, he, he1, hgm2, hgmn⟩ := mem_groupOf hgm
   obtain ⟨hok, _, as, has, hall, _⟩ := mem_meOf w he
-  obtain ⟨h1, h2, _⟩ := hall gm.2 hgm2
-  refine ⟨gm.2, ⟨as, ?_, h1⟩, h2, ?_, by rw [hgmn], rfl, rfl⟩
+  obtain ⟨h1, h2, h3⟩ := hall gm.2 hgm2
+  refine ⟨gm.2, ⟨as, ?_, h1⟩, h2, ?_, by rw [hgmn], rfl, rfl, shape_of_mem_markNames w has h1 h3⟩
   · show (gm.1, as) ∈ al; rw [← he1]; exact has
   · show markOK i gm.1 = true; rw [← he1]; exact hok
 
